@@ -36,6 +36,11 @@
                later use (orig: i32 resp. ptr, fixed at the first use => TypeError/ValueError)
      fx_ops    'rol'/'ror' (identifiers in operator position) and '~' are read
                (orig: NotImplementedError / Lex fault)
+     fx_ru_generic / fx_ru_phi / fx_ru_call   Instruction.replace_use, Phi.replace_use and
+               FunctionCall/ProcedureCall.replace_use of ppci/ir.py (reached through
+               Reader.define_value -> Value.replace_by) handle a placeholder that fills two operand
+               slots / two phi edges / two call arguments (orig: KeyError resp. only the first
+               argument replaced); same switches as Model.IrJson.jcfg
    Deviations (all outside the image of the printer on well-formed modules), as in
    Model/IrJson.v: jump to a block name that is never defined => Internal (OtherI 78) (Python
    builds a dangling Block); a name clash that makes SubRoutine.make_unique_name rename a block
@@ -47,9 +52,14 @@ Local Open Scope string_scope.
 Local Open Scope list_scope.
 Open Scope Z_scope.
 
-Record tcfg := mk_tcfg { fx_init : bool; fx_float : bool; fx_fwd : bool; fx_ops : bool }.
-Definition tcfg_orig := mk_tcfg false false false false.
-Definition tcfg_fixed := mk_tcfg true true true true.
+Record tcfg := mk_tcfg { fx_init : bool; fx_float : bool; fx_fwd : bool; fx_ops : bool;
+                         fx_ru_generic : bool; fx_ru_phi : bool; fx_ru_call : bool }.
+(* the baseline code; the baseline + fixes/C15-*.diff (replace_use of ppci/ir.py as in the
+   baseline); and the current code = all of them (replace_use repaired by the /repo commits
+   2d6a9c1, e4350a7, 283ca09, found by the C16 check) *)
+Definition tcfg_orig := mk_tcfg false false false false false false false.
+Definition tcfg_noru := mk_tcfg true true true true false false false.
+Definition tcfg_fixed := mk_tcfg true true true true true true true.
 
 (* ------------------------------------------------------------------ tokens *)
 Inductive token :=
@@ -623,12 +633,34 @@ Definition find_value (c : tcfg) (name : string) (dty : ty) (st : tst) : (vref *
       end
   end.
 
+(* use.replace_use(old, new) for one user (same as Model.IrJson.patch_instr, own switches) *)
+Definition tpatch_instr (c : tcfg) (name : string) (new : vref) (i : instr) : result instr :=
+  let call := fun (cl : vref) (args : list vref) (mk : vref -> list vref -> instr) =>
+    if fx_ru_call c then Ok (mk (sub1 name new cl) (map (sub1 name new) args))
+    else if is_old name cl
+    then (if existsb (is_old name) args then Internal KeyError else Ok (mk new args))
+    else Ok (mk cl (replace_first name new args)) in
+  match i with
+  | ICallF v n t cl args => call cl args (ICallF v n t)
+  | ICallP cl args => call cl args ICallP
+  | IPhi _ _ _ _ =>
+      if negb (fx_ru_phi c) && Nat.leb 2 (count_old name (instr_uses i)) then Internal KeyError
+      else Ok (map_refs (sub1 name new) i)
+  | _ => if negb (fx_ru_generic c) && Nat.leb 2 (count_old name (instr_uses i)) then Internal KeyError
+         else Ok (map_refs (sub1 name new) i)
+  end.
+Definition tpatch_block (c : tcfg) (name : string) (new : vref) (k : block) : result block :=
+  ins <- mapM (tpatch_instr c name new) (b_ins k) ;; Ok (mk_block (b_id k) (b_name k) ins).
+Definition tpatch_func (c : tcfg) (name : string) (new : vref) (f : func) : result func :=
+  bl <- mapM (tpatch_block c name new) (f_blocks f) ;;
+  Ok (mk_func (f_name f) (f_binding f) (f_ret f) (f_params f) bl).
+
 Definition uses_old (name : string) (i : instr) : bool := existsb (is_old name) (instr_uses i).
 Definition func_uses_old (name : string) (f : func) : bool := existsb (uses_old name) (func_instrs f).
 
 (* Reader.define_value(value): [r] = the new object, [local] = which scope is on top,
    [self] = the instruction being defined (built, not yet in its block) *)
-Definition define_value (name : string) (r : vref) (t : ty) (local : bool) (self : option instr)
+Definition define_value (c : tcfg) (name : string) (r : vref) (t : ty) (local : bool) (self : option instr)
            (st : tst) : result (option instr * tst) :=
   '(self1, st1) <-
     match plookup name (ts_pend st) with
@@ -636,12 +668,12 @@ Definition define_value (name : string) (r : vref) (t : ty) (local : bool) (self
     | Some _ =>
         _ <- check (negb (match r with Loc _ | Param _ => existsb (func_uses_old name) (ts_funcs st)
                                 | _ => false end)) (OtherI 79) ;;
-        fs <- mapM (patch_func name r) (ts_funcs st) ;;
-        bs <- mapM (patch_block name r) (ts_blocks st) ;;
-        ins <- mapM (patch_instr name r) (ts_ins st) ;;
+        fs <- mapM (tpatch_func c name r) (ts_funcs st) ;;
+        bs <- mapM (tpatch_block c name r) (ts_blocks st) ;;
+        ins <- mapM (tpatch_instr c name r) (ts_ins st) ;;
         s1 <- match self with
               | None => Ok None
-              | Some i => i' <- patch_instr name r i ;; Ok (Some i')
+              | Some i => i' <- tpatch_instr c name r i ;; Ok (Some i')
               end ;;
         Ok (s1, mk_tst (ts_glob st) (ts_loc st) (premove name (ts_pend st)) (ts_next st)
                        (ts_names st) fs bs ins)
@@ -666,11 +698,11 @@ Definition add_ins (i : instr) (st : tst) : result tst :=
                  (ts_blocks st) (ts_ins st ++ [i]))
   end.
 (* parse_statement: ins = parse_assignment(); define_value(ins); ...; block.add_instruction(ins) *)
-Definition finish_val (i : instr) (st : tst) : result tst :=
+Definition finish_val (c : tcfg) (i : instr) (st : tst) : result tst :=
   match instr_def i with
   | None => Internal AssertionError
   | Some (v, n, t) =>
-      '(self, st1) <- define_value n (Loc v) t true (Some i) st ;;
+      '(self, st1) <- define_value c n (Loc v) t true (Some i) st ;;
       match self with Some i' => add_ins i' st1 | None => Internal AssertionError end
   end.
 
@@ -709,24 +741,24 @@ Definition resolve_instr (i : rinstr) (st : tst) : result tst :=
             | RInt z => Ok (CInt z)
             | RFloat s => match fp s with Some b => Ok (CFloat b) | None => Internal ValueErrorI end
             end ;;
-      finish_val (IConst v n t k') st
+      finish_val c (IConst v n t k') st
   | RBinop t n a o b =>
       let d := if fx_fwd c then t else I32 in
       let '((a', ta), st1) := find_value c a d st in
       let '((b', tb), st2) := find_value c b d st1 in
       _ <- check (ty_eqb ta t) TypeError ;; _ <- check (ty_eqb tb t) TypeError ;;
-      finish_val (IBinop v n t o a' b') st2
+      finish_val c (IBinop v n t o a' b') st2
   | RUnop t n o a =>
       let '((a', ta), st1) := find_value c a (if fx_fwd c then t else Ptr) st in
       _ <- check (ty_eqb ta t) TypeError ;;
-      finish_val (IUnop v n t o a') st1
+      finish_val c (IUnop v n t o a') st1
   | RCast t n a =>
-      let '((a', _), st1) := find_value c a Ptr st in finish_val (ICast v n t a') st1
+      let '((a', _), st1) := find_value c a Ptr st in finish_val c (ICast v n t a') st1
   | RLoad t n a =>
       let '((a', ta), st1) := find_value c a Ptr st in
       _ <- check (ty_eqb ta Ptr) AssertionError ;;
       _ <- check (negb (ty_is_blob t)) ValueErrorI ;;
-      finish_val (ILoad v n t a' false) st1
+      finish_val c (ILoad v n t a' false) st1
   | RStore x a =>
       let '((x', _), st1) := find_value c x Ptr st in
       let '((a', ta), st2) := find_value c a Ptr st1 in
@@ -734,25 +766,25 @@ Definition resolve_instr (i : rinstr) (st : tst) : result tst :=
       add_ins (IStore x' a' false) st2
   | RAlloc _ n s al =>
       _ <- check (negb (s =? 0)) ValueErrorI ;;
-      finish_val (IAlloc v n s al) st
+      finish_val c (IAlloc v n s al) st
   | RAddrOf t n a =>
       let '((a', ta), st1) := find_value c a (Blob 1 1) st in
       _ <- check (ty_is_blob ta) TypeError ;;
       _ <- check (ty_eqb t Ptr) AssertionError ;;
-      finish_val (IAddrOf v n a') st1
+      finish_val c (IAddrOf v n a') st1
   | RLit _ n h =>
       match unhexlify h with
-      | Ok d => finish_val (ILit v n d) st
+      | Ok d => finish_val c (ILit v n d) st
       | _ => Internal ValueErrorI
       end
   | RPhi t n ins =>
       '(l, st1) <- phi_inputs t ins [] st ;;
-      finish_val (IPhi v n t l) st1
+      finish_val c (IPhi v n t l) st1
   | RCallF t n f args =>
       let '((f', tf), st1) := find_value c f Ptr st in
       let '(args', st2) := find_args args st1 in
       _ <- check (ty_eqb tf Ptr) ValueErrorI ;;
-      finish_val (ICallF v n t f' args') st2
+      finish_val c (ICallF v n t f' args') st2
   | RCallP f args =>
       let '((f', tf), st1) := find_value c f Ptr st in
       let '(args', st2) := find_args args st1 in
@@ -795,10 +827,10 @@ Fixpoint resolve_blocks (bmap : list (string * bid)) (l : list rblock) (st : tst
 Fixpoint define_params (l : list (ty * string)) (k : nat) (st : tst) : result tst :=
   match l with
   | [] => Ok st
-  | (t, n) :: r => '(_, st1) <- define_value n (Param k) t true None st ;; define_params r (S k) st1
+  | (t, n) :: r => '(_, st1) <- define_value c n (Param k) t true None st ;; define_params r (S k) st1
   end.
 Definition resolve_func (f : rfunc) (st : tst) : result tst :=
-  '(_, st1) <- define_value (rf_name f) (Glob (rf_name f)) Ptr false None st ;;
+  '(_, st1) <- define_value c (rf_name f) (Glob (rf_name f)) Ptr false None st ;;
   let st2 := mk_tst (ts_glob st1) [] (ts_pend st1) 1 [] (ts_funcs st1) [] [] in
   st3 <- define_params (rf_params f) O st2 ;;
   let bmap := number_names 1 (map rb_name (rf_blocks f)) in
@@ -824,11 +856,11 @@ Fixpoint resolve_items (l : list ritem) (exts : list ext) (vars : list gvar) (st
   match l with
   | [] => Ok (exts, vars, st)
   | RExt e :: r =>
-      '(_, st1) <- define_value (ext_name e) (Glob (ext_name e)) Ptr false None st ;;
+      '(_, st1) <- define_value c (ext_name e) (Glob (ext_name e)) Ptr false None st ;;
       resolve_items r (exts ++ [e]) vars st1
   | RVar g :: r =>
       g' <- resolve_var g ;;
-      '(_, st1) <- define_value (rv_name g) (Glob (rv_name g)) Ptr false None st ;;
+      '(_, st1) <- define_value c (rv_name g) (Glob (rv_name g)) Ptr false None st ;;
       resolve_items r exts (vars ++ [g']) st1
   | RFunc f :: r =>
       st1 <- resolve_func f st ;; resolve_items r exts vars st1
@@ -1016,7 +1048,7 @@ Definition printable_func (c : tcfg) (fr : Z -> string) (fp : string -> option Z
   && forallb (fun d => is_ident (def_name d)) (func_defs f)
   && forallb (fun i => ctor_ok f i && instr_floats_ok c fr fp i) (func_instrs f)
   && forallb (rprintable_instr c) (map (erase_instr fr f) (func_instrs f))
-  && no_fwd_double 1 (func_instrs f).
+  && ((fx_ru_generic c && fx_ru_phi c && fx_ru_call c) || no_fwd_double 1 (func_instrs f)).
 Definition printable (c : tcfg) (fr : Z -> string) (fp : string -> option Z) (m : modul) : bool :=
   print_ok c m && is_ident (m_name m)
   && forallb (fun e => is_ident (ext_name e)) (m_externals m)
